@@ -29,10 +29,10 @@ package vm
 //verif:assume verifC02And/verifC02Or are evaluated by the engine as a single term (same value as their Go bodies) so that the reference does not fork
 //verif:outside open world beyond 4 keys and closed world beyond 5 keys at opcode level ((4,4), (5,3), (6,2) open and (5,3), (6,2) closed ran clean or hit the 3000 s budget without a finding but are too slow to register); cryptographic strength of ed25519 (unforgeability); m and n items longer than one byte (values above 255 need more than 255*1024 gas and more stack than any bound here)
 //verif:override crypto/ed25519.Verify -> verifC02Verify
-//verif:obligation fn=VerifC02CheckSig args=3,0;2,0;4,0 nooverride=verifC02Verify validate=16
-//verif:obligation fn=VerifC02CheckSig args=3,1;4,1 validate=16
+//verif:obligation fn=VerifC02CheckSig args=3,0;2,0;4,0 nooverride=verifC02Verify validate=32
+//verif:obligation fn=VerifC02CheckSig args=3,1;4,1 validate=32
 //verif:obligation fn=VerifC02CheckMultiSig args=1,1,0,0;2,1,0,0;2,2,0,0;3,2,3,0 nooverride=verifC02Verify secs=3000 timeout=120000
-//verif:obligation fn=VerifC02CheckMultiSig args=1,1,0,1;2,1,0,1;2,2,0,1;3,2,3,1 validate=16 secs=3000 timeout=120000
+//verif:obligation fn=VerifC02CheckMultiSig args=1,1,0,1;2,1,0,1;2,2,0,1;3,2,3,1 validate=32 secs=3000 timeout=120000
 //verif:obligation fn=VerifC02CheckMultiSig args=3,2,0,0;3,3,3,0;4,2,4,0 nooverride=verifC02Verify tier=thorough secs=3000 timeout=120000
 //verif:obligation fn=VerifC02CheckMultiSig args=3,2,0,1;3,3,3,1;4,2,4,1;5,2,5,1 tier=thorough secs=3000 timeout=120000
 
